@@ -790,6 +790,19 @@ func (x *c10env) failureCases(garbage string) []c10fail {
 			return nil, errC10Injected
 		}
 	}
+	// a signer that fails once (a signing service that is briefly unavailable) and would answer a second call: the data it
+	// was handed is a stream that is read once, so a second call cannot sign the bytes the verifier checks – the failure
+	// has to surface
+	failingOnce := func(calls *int) func(io.Reader) ([]byte, error) {
+		return func(r io.Reader) ([]byte, error) {
+			*calls++
+			_, _ = io.Copy(io.Discard, r)
+			if *calls == 1 {
+				return nil, errC10Injected
+			}
+			return []byte("-----BEGIN PGP SIGNATURE-----\n\nsecond call\n-----END PGP SIGNATURE-----\n"), nil
+		}
+	}
 	var cs []c10fail
 	for _, method := range []string{"debsign", "dpkg-sig"} {
 		method := method
@@ -801,6 +814,7 @@ func (x *c10env) failureCases(garbage string) []c10fail {
 			}})
 		}
 		deb("signfn-error", true, map[string]any{"sign_fn": "returns injected error"}, func(i *nfpm.Info, n *int) { i.Deb.Signature.SignFn = failing(n) })
+		deb("signfn-fails-once", true, map[string]any{"sign_fn": "returns the injected error on the first call, a signature on any later call"}, func(i *nfpm.Info, n *int) { i.Deb.Signature.SignFn = failingOnce(n) })
 		deb("missing-key-file", false, map[string]any{"key_file": "/does/not/exist"}, func(i *nfpm.Info, _ *int) { i.Deb.Signature.KeyFile = "/does/not/exist" })
 		deb("garbage-key-file", false, map[string]any{"key_file": "<256 random bytes>"}, func(i *nfpm.Info, _ *int) { i.Deb.Signature.KeyFile = garbage })
 		deb("public-key-as-key-file", false, map[string]any{"key_file": "pubkey.asc"}, func(i *nfpm.Info, _ *int) { i.Deb.Signature.KeyFile = x.key("pubkey.asc") })
@@ -831,6 +845,7 @@ func (x *c10env) failureCases(garbage string) []c10fail {
 		cs = append(cs, c10fail{"rpm", name, "", injected, map[string]any{"rpm.signature": desc}, f})
 	}
 	rpm("signfn-error", true, map[string]any{"sign_fn": "returns injected error"}, func(i *nfpm.Info, n *int) { i.RPM.Signature.SignFn = failing(n) })
+	rpm("signfn-fails-once", true, map[string]any{"sign_fn": "returns the injected error on the first call, a signature on any later call"}, func(i *nfpm.Info, n *int) { i.RPM.Signature.SignFn = failingOnce(n) })
 	rpm("missing-key-file", false, map[string]any{"key_file": "/does/not/exist"}, func(i *nfpm.Info, _ *int) { i.RPM.Signature.KeyFile = "/does/not/exist" })
 	rpm("garbage-key-file", false, map[string]any{"key_file": "<256 random bytes>"}, func(i *nfpm.Info, _ *int) { i.RPM.Signature.KeyFile = garbage })
 	rpm("public-key-as-key-file", false, map[string]any{"key_file": "pubkey.asc"}, func(i *nfpm.Info, _ *int) { i.RPM.Signature.KeyFile = x.key("pubkey.asc") })
@@ -846,6 +861,7 @@ func (x *c10env) failureCases(garbage string) []c10fail {
 		cs = append(cs, c10fail{"apk", name, "", injected, map[string]any{"apk.signature": desc}, f})
 	}
 	apk("signfn-error", true, map[string]any{"sign_fn": "returns injected error"}, func(i *nfpm.Info, n *int) { i.APK.Signature.SignFn = failing(n) })
+	apk("signfn-fails-once", true, map[string]any{"sign_fn": "returns the injected error on the first call, a signature on any later call"}, func(i *nfpm.Info, n *int) { i.APK.Signature.SignFn = failingOnce(n) })
 	apk("missing-key-file", false, map[string]any{"key_file": "/does/not/exist"}, func(i *nfpm.Info, _ *int) { i.APK.Signature.KeyFile = "/does/not/exist" })
 	apk("garbage-key-file", false, map[string]any{"key_file": "<256 random bytes>"}, func(i *nfpm.Info, _ *int) { i.APK.Signature.KeyFile = garbage })
 	apk("wrong-key-format", false, map[string]any{"key_file": "wrong_key_format.priv"}, func(i *nfpm.Info, _ *int) { i.APK.Signature.KeyFile = x.key("wrong_key_format.priv") })
